@@ -12,14 +12,14 @@ Definition key_of_dkey (d : dkey) : option key :=
   | DErr => Some KErr
   | DNoDefer => Some KNone
   | DShadowedErr => Some KAlways
-  | DRollbackFirst | DReleaseAlways | DNA => None
+  | DRollbackFirst | DReleaseAlways | DRemovesStaging | DNA => None
   end.
 
 (* one output file, written through one staging helper *)
 Definition single_output (r : frow) : bool :=
   match f_helper r with
   | HStaged | HPdfStaged | HCut | HNewFile => true
-  | HMulti | HMultiRollback | HMultiReserve | HReadOnly | HInPlace => false
+  | HMulti | HMultiRollback | HMultiReserve | HStagingCtor | HReadOnly | HInPlace => false
   end.
 
 Definition name_in (l : list (string * string)) (r : frow) : bool :=
@@ -118,6 +118,13 @@ Proof.
     + right. split; [discriminate|exact Hf].
     + right. split; [discriminate|exact Hf].
 Qed.
+
+(* the staging-file constructor: every error return after the staging file exists removes f.Name(), never
+   the destination (checked by genc01): `create_staged_file` in Model.v is its model *)
+Lemma create_staged_file_row_proof :
+  existsb (fun r => String.eqb (f_name r) "createStagedFile" && helper_eqb (f_helper r) HStagingCtor
+                    && dkey_eqb (f_key r) DRemovesStaging) table = true.
+Proof. vm_compute. reflexivity. Qed.
 
 (* the table is not empty and contains the anchored functions *)
 Lemma table_nonvacuous_proof :
